@@ -210,6 +210,21 @@ class StepOracle(Base):
         self.k += 1
         if res is not None:
             self.last_ok = (float(kw["dt"]), np.array(res[0], copy=True))
+        if ctx is not None and "psi" in ctx["inputs"]:
+            # z and w of this step are to be built from the state handed to update(): psi^n, |psi^n|^2, mu^n
+            self.count("step_input_checks")
+            pin, mun = np.asarray(ctx["inputs"]["psi"]), np.asarray(ctx["inputs"]["mu"])
+            sq = np.abs(pin) ** 2
+            bad = None
+            if not np.array_equal(np.asarray(kw["psi"]), pin):
+                bad = "psi"
+            elif not np.array_equal(np.asarray(kw["mu"]), mun):
+                bad = "mu"
+            elif np.any(np.abs(np.asarray(kw["abs_sq_psi"]) - sq) > 1e-13 * sq + 1e-300):
+                bad = "abs_sq_psi"
+            if bad:
+                self.viol("step_not_built_from_current_state", "step_built_from_foreign_state",
+                          {"step": ctx["step"], "argument": bad, "max_abs_diff": float(np.max(np.abs(np.asarray(kw[bad]) - {"psi": pin, "mu": mun, "abs_sq_psi": sq}[bad])))})
         if self.k % self.every and res is not None:
             return
         check_spsq(self, kw, res, where={"step": None if ctx is None else ctx["step"]})
